@@ -237,7 +237,7 @@ def tree_ok(x, _seen=None) -> bool:
     return True
   for k, c in x.sym_items():
     if isinstance(c, pg.Symbolic):
-      if c.sym_parent is not x or c.sym_path != x.sym_path + k:
+      if c.sym_parent is not x or c.sym_path != pg.KeyPath(k, x.sym_path):
         return False
     if not tree_ok(c):
       return False
